@@ -1,6 +1,7 @@
 (* C06 - Line order, file split and fill splitting do not matter.  Statements only. *)
-From Coq Require Import QArith Qcanon ZArith List Bool Permutation.
-Require Import CGT.Model.Num CGT.Model.Ledger CGT.Model.Match CGT.Model.Agg CGT.Proofs.AggFacts.
+From Coq Require Import QArith Qcanon ZArith List Bool String Permutation.
+Require Import CGT.Model.Num CGT.Model.Date CGT.Model.Ledger CGT.Model.Match CGT.Model.Agg CGT.Model.Report CGT.Model.Config
+               CGT.Proofs.AggFacts CGT.Proofs.LedgerFacts.
 Import ListNotations.
 Open Scope Qc_scope.
 
@@ -10,4 +11,33 @@ Theorem C06_day_record_perm : forall l l' z, Permutation l l' ->
   dt a = dt b /\ bq a = bq b /\ bcost a = bcost b /\ hasbuy a = hasbuy b /\
   sq a = sq b /\ sgross a = sgross b /\ sfees a = sfees b /\ hassell a = hassell b /\ ratio a = ratio b.
 Proof. exact mk_day_perm. Qed.
+
+(* The whole report (errors, disposals, legs, year totals, holdings) of any permutation of the lines is the
+   same, for every configuration and year filter, provided no security has two CAPRETURN/ACCUMULATION lines
+   on one day (those are applied in line order - the known finding kf_same_day_mixed_events). Distributing the
+   lines over several files is a special case: the CLI concatenates the files. *)
+Theorem C06_perm : forall P cfg yf l l', Permutation l l' -> events_order_free l ->
+  report_of P cfg yf l = report_of P cfg yf l'.
+Proof. exact report_of_perm. Qed.
+
+(* non-vacuity: a two-security ledger with a same-day purchase and sale, reversed *)
+Definition c06_ledger : list gtxn :=
+  [ {| t_date := 738886; t_tick := "A"; t_op := Buy (Q2Qc 100) (Q2Qc 1) (Q2Qc 0) |};
+    {| t_date := 738917; t_tick := "B"; t_op := Buy (Q2Qc 5) (Q2Qc 2) (Q2Qc 0) |};
+    {| t_date := 738917; t_tick := "A"; t_op := Sell (Q2Qc 30) (Q2Qc 2) (Q2Qc (1 # 2)) |};
+    {| t_date := 738917; t_tick := "A"; t_op := Buy (Q2Qc 10) (Q2Qc 3) (Q2Qc 0) |} ].
+Example C06_witness : events_order_free c06_ledger /\
+  exists r, report_of P0 [(2023%Z, Q2Qc 6000)] None c06_ledger = inr r /\
+            report_of P0 [(2023%Z, Q2Qc 6000)] None (rev c06_ledger) = inr r.
+Proof.
+  split.
+  - intros s z. unfold c06_ledger.
+    assert (forall l, (forall t, In t l -> evs_of (t_op t) = []) -> flat_map evs_of (map t_op l) = []) as Hnil.
+    { induction l as [|t r IH]; intros H; cbn [map flat_map]; [reflexivity|]. rewrite (H t (or_introl eq_refl)), IH; [reflexivity|]. intros x Hx. apply H. right. exact Hx. }
+    rewrite Hnil; [cbn; auto|]. intros t Ht. apply filter_In in Ht. destruct Ht as [Ht _]. apply filter_In in Ht. destruct Ht as [Ht _].
+    cbn [In] in Ht. repeat (destruct Ht as [<-|Ht]; [reflexivity|]). destruct Ht.
+  - eexists. split; [vm_compute; reflexivity|]. vm_compute. reflexivity.
+Qed.
+
 Print Assumptions C06_day_record_perm.
+Print Assumptions C06_perm.
